@@ -309,6 +309,11 @@ def render(T):
     body += "\nDefinition validator_keys : list str := %s.\n" % _l(T.validator_keys, cstr)
     body += "\n(* class ids of the rows recorded as C12 findings in known_findings.json *)\n"
     body += "Definition known_bad_rows : list N := %s.\n" % _l(known_bad_rows(T))
+    ku, ke, kv = known_c13(T)
+    body += "\n(* rows recorded as C13 findings in known_findings.json *)\n"
+    body += "Definition known_unresolved_attr : list (N * N) := %s.\n" % _l(ku, lambda p: "(%d,%d)" % p)
+    body += "Definition known_unenforced_enum : list N := %s.\n" % _l(ke)
+    body += "Definition known_unresolved_vtype : list N := %s.\n" % _l(kv)
     body += "\n(* a real object (samlp.Response with a signed-shape assertion, typed attribute values, foreign content) read back as a model instance *)\n"
     body += "Definition example_inst : inst := %s.\n" % example_inst(T)
     return head + body
@@ -329,6 +334,33 @@ def known_bad_rows(T):
         if qn in T.qname and T.qname.index(qn) not in ids:
             ids.append(T.qname.index(qn))
     return sorted(ids)
+
+
+def known_c13(T):
+    from core import VERIF
+    try:
+        kf = json.load(open(VERIF + "/known_findings.json"))
+    except OSError:
+        return [], [], []
+    ku, ke, kv = [], [], []
+    for f in kf.get("findings", []):
+        key = f.get("key", "")
+        if f.get("property") != "C13" or ":" not in key:
+            continue
+        kind, rest = key.split(":", 1)
+        if kind == "unresolved-type":
+            clsmember = rest.split(":", 1)[0]
+            qn, member = clsmember.rsplit(".", 1)
+            if qn in T.qname and member in T.intern:
+                cid = T.qname.index(qn)
+                for (x, m, _t, _r) in T.rows[cid]["attrs"]:
+                    if m == T.intern[member]:
+                        ku.append((cid, x))
+        elif kind == "enum-not-enforced" and rest in T.qname:
+            ke.append(T.qname.index(rest))
+        elif kind == "unresolved-vtype" and rest.split(":", 1)[0] in T.qname:
+            kv.append(T.qname.index(rest.split(":", 1)[0]))
+    return sorted(set(ku)), sorted(set(ke)), sorted(set(kv))
 
 
 def example_inst(T):
